@@ -16,9 +16,10 @@ NUM_RE = re.compile(r"[0-9][0-9A-Za-z_]*(\.[0-9][0-9A-Za-z_]*)?")
 
 
 class Tok:
-    __slots__ = ("kind", "text", "line", "sp")
+    __slots__ = ("kind", "text", "line", "sp", "off")
 
-    def __init__(self, kind, text, line, sp=True):
+    def __init__(self, kind, text, line, sp=True, off=-1):
+        self.off = off    # character offset in the lexed source (-1: synthesised token)
         self.kind = kind
         self.text = text
         self.line = line
@@ -34,9 +35,9 @@ def lex(src, keep_comments=False):
 
     def emit(kind, text, line, start):
         if kind in ("dir", "comment"):
-            toks.append(Tok(kind, text, line, sp=True))
+            toks.append(Tok(kind, text, line, sp=True, off=start))
             return
-        toks.append(Tok(kind, text, line, sp=(start != last_end[0])))
+        toks.append(Tok(kind, text, line, sp=(start != last_end[0]), off=start))
         last_end[0] = start + len(text)
 
     i = 0
@@ -433,7 +434,8 @@ def find_item(items, spec):
                 a = words.pop(0)
             cands = [it for it in cur if it.kind == "impl" and it.impl_of == a and
                      ((trait is None and it.trait is None) or (trait is not None and it.trait is not None and
-                      it.trait.split("::")[-1] == trait.split("::")[-1]))]
+                      (it.trait.split("::")[-1] == trait.split("::")[-1] or
+                       ("<" not in trait and it.trait.split("<")[0].split("::")[-1] == trait.split("::")[-1]))))]
             if not words:
                 if len(cands) != 1:
                     return None
